@@ -427,6 +427,9 @@ func (in *Interp) lookup(instr *ssa.Lookup, x, idx value) value {
 	case *mapV:
 		var v value
 		ok := false
+		if x != nil {
+			in.raceRead(&x.rc)
+		}
 		if e := in.mapFind(x, idx); e != nil {
 			v, ok = copyVal(e.v), true
 		} else {
@@ -530,6 +533,7 @@ func (in *Interp) rangeIter(x value, t types.Type) iter {
 		if x == nil {
 			return &mapIter{}
 		}
+		in.raceRead(&x.rc)
 		snap := make([]*mapEntry, len(x.entries))
 		copy(snap, x.entries)
 		return &mapIter{m: x, snap: snap}
@@ -596,6 +600,7 @@ func (in *Interp) callBuiltin(caller *frame, callpos token.Pos, fn *ssa.Builtin,
 	case "delete":
 		m := args[0].(*mapV)
 		if m != nil {
+			in.raceWrite(&m.rc)
 			in.mapDelete(m, args[1])
 		}
 		return nil
